@@ -73,7 +73,12 @@ Ambiguous == {Vec(<<Bin(V20), StdCtl("gz"), StdDat("gz"), Decoy("")>>), Vec(<<Bi
               Vec(<<Bin(V20), StdCtl("gz"), StdDat("gz"), DecoyNamed("control.x.tar")>>),
               Vec(<<Bin(V20), StdCtl("gz"), StdDat("gz"), DataDecoyNamed("data.x.tar")>>),
               Vec(<<Bin(V20), StdCtl("gz"), StdDat("gz"), [Extra("control.zzz", <<1, 2>>) EXCEPT !.role = "control"]>>)}
-C14Vecs == Combos \cup Layouts \cup Versions \cup Missing \cup Orders \cup Ambiguous
+\* a large and highly redundant payload (2 MiB of one byte) between ordinary files, under every encoding: the
+\* packed member is a few hundred bytes, the stream it denotes is not
+Fill(n, b, e) == F("./usr/big" \o ToString(n), "fill", <<b, e>>)
+Large == {Vec(<<Bin(V20), StdCtl("gz"), Dat(c, <<DataFile(1), Fill(1, 0, 21), DataFile(2)>>)>>) : c \in Comps}
+         \cup {Vec(<<Bin(V20), Ctl(c, <<Fill(1, 120, 21), CtlF("./control"), Md5>>, Fields(PkgA, FALSE)), StdDat("gz")>>) : c \in Comps}
+C14Vecs == Large \cup Combos \cup Layouts \cup Versions \cup Missing \cup Orders \cup Ambiguous
 
 \* ---- C16 ------------------------------------------------------------------
 Roles == {"origin", "maint", "archive"}
@@ -108,6 +113,24 @@ SigWrong == {SVec(Base("gz") \o <<Sig("origin", "k1", ov)>>, "origin", <<"k1">>,
                 ov \in {<<1, 3, 2>>, <<2, 3>>, <<1, 2>>, <<3, 2, 1>>, <<1, 2, 3, 3>>}}
 C16Vecs == SigBasic \cup SigFlips \cup SigDecoys \cup SigWrong
 
-ASSUME Emit(CASE Mode = "c14" -> SetToSeq(C14Vecs)
-              [] Mode = "c16" -> SetToSeq(C16Vecs))
+\* ---- several loaded packages alive in one process -----------------------------------------------------
+\* three signed packages with different names and payloads; handle h holds package PkgOfHandle[h].
+\* phase 1: handle 1 loaded, optionally read / checked, closed 0, 1 or 2 times
+\* phase 2: handles 2 and 3 open at the same time, their Data read and their signatures checked in every order,
+\*          then closed (handle 2 once or twice)
+\* phase 3: handles 4 and 5 (packages 1 and 2 again) open at the same time, read in the other order
+PkgName(n) == <<112, 107, 103>> \o <<96 + n>>
+LifePkg(n) == <<Bin(V20), Ctl("gz", <<Dir, Md5, CtlF("./control"), Post>>, Fields(PkgName(n), FALSE)),
+                Dat("gz", <<DataFile(n), F("./usr/only-in-" \o ToString(n), "file", <<110, 48 + n, 10>>)>>), Sig("origin", "k1", <<1, 2, 3>>)>>
+LOp(o, h, p, ring) == [op |-> o, h |-> h, p |-> p, ring |-> ring]
+Ld(h, p) == LOp("load", h, p, <<>>)  Cl(h) == LOp("close", h, 0, <<>>)  Dt(h) == LOp("data", h, 0, <<>>)  Ck(h) == LOp("check", h, 0, <<"k1">>)
+Rep(x, n) == [i \in 1..n |-> x]
+Perms4(S) == {p \in [1..4 -> S] : \A i, j \in 1..4 : p[i] = p[j] => i = j}
+LifeOps == {<<Ld(1, 1)>> \o (IF rd THEN <<Dt(1)>> ELSE <<>>) \o (IF ck THEN <<Ck(1)>> ELSE <<>>) \o Rep(Cl(1), c1)
+            \o <<Ld(2, 2), Ld(3, 3)>> \o p \o Rep(Cl(2), c2) \o <<Cl(3)>>
+            \o <<Ld(4, 1), Ld(5, 2), Dt(5), Dt(4), Ck(4), Cl(4), Cl(5)>> :
+               rd \in BOOLEAN, ck \in BOOLEAN, c1 \in 0..2, c2 \in 1..2, p \in Perms4({Dt(2), Dt(3), Ck(2), Ck(3)})}
+Life == {[k |-> "deb_ops", pkgs |-> <<LifePkg(1), LifePkg(2), LifePkg(3)>>, ops |-> o] : o \in LifeOps}
+ASSUME Emit(CASE Mode = "c14" -> SetToSeq(C14Vecs) \o SetToSeq(Life)
+              [] Mode = "c16" -> SetToSeq(C16Vecs) \o SetToSeq(Life))
 =============================================================================
